@@ -209,7 +209,7 @@ func ruleC14Swap(e *Env) {
 		switch {
 		case out == negStr(rev):
 			e.S.Ok(rule, site, construct, fmt.Sprintf("out(a,b) = %s = −out(b,a)", out), "")
-		case k == "1,1,0" && (out == "-cPR(a,b)" && rev == "-cPR(b,a)" || out == "cPR(b,a)" && rev == "cPR(a,b)" || out == "cPR(a,b)" && rev == "cPR(b,a)"):
+		case k == "1,1,0" && (out == "-cPR(a,b)" && rev == "-cPR(b,a)" || out == "-cPR(b,a)" && rev == "-cPR(a,b)" || out == "cPR(b,a)" && rev == "cPR(a,b)" || out == "cPR(a,b)" && rev == "cPR(b,a)"):
 			e.S.Ok(rule, site, construct, fmt.Sprintf("equal lengths: out(a,b) = %s, out(b,a) = %s; antisymmetry reduces to the residual cPR(a,b) = −cPR(b,a) (not decided, listed)", out, rev), "")
 		default:
 			e.S.Bad(rule, site, construct, fmt.Sprintf("out(a,b) = %s but out(b,a) = %s: the sign is not consistent under exchanging the operands", out, rev), "", "two pre-releases of different length")
@@ -226,8 +226,10 @@ func ruleSuffix(e *Env, rule string) {
 	}
 	// the remainder function: the in-repo callee of comparePreRelease taking two strings
 	var suf *ssa.Function
+	var sufCall *ssa.Call
 	for _, c := range e.C.Calls(cpr, flow.InRepo) {
 		suf = e.C.StaticCallee(&c.Call)
+		sufCall = c
 	}
 	if suf == nil || len(suf.Params) != 2 {
 		e.S.Ok(rule, flow.FnName(cpr), "remainder function", "no separate remainder comparison (nothing to tabulate)", e.Pos(cpr))
@@ -254,7 +256,17 @@ func ruleSuffix(e *Env, rule string) {
 		return []int{0, 1}
 	}
 	mk := func() []pred.Val { return []pred.Val{pred.Sym{Name: "s"}, pred.Sym{Name: "l"}} }
-	leaves, err := extractTree(e.P.SSA, suf, e.Permuted("sem", "comparePreReleaseSuffix", suf, mk), nil, nil, keyOf, domain)
+	mkArgs := e.Permuted("sem", "comparePreReleaseSuffix", suf, mk)
+	// which parameter is the remainder of the shorter operand is read off the call site: the scan that leads to the
+	// call runs while i < len(X); the argument sliced from X is the shorter one's remainder
+	if si := shorterArgIndex(cpr, sufCall); si >= 0 {
+		mkArgs = func() []pred.Val {
+			a := []pred.Val{pred.Sym{Name: "l"}, pred.Sym{Name: "l"}}
+			a[si] = pred.Sym{Name: "s"}
+			return a
+		}
+	}
+	leaves, err := extractTree(e.P.SSA, suf, mkArgs, nil, nil, keyOf, domain)
 	if err != nil {
 		e.S.Unk(rule, site, "table", err.Error(), e.Pos(suf))
 		return
@@ -271,6 +283,13 @@ func ruleSuffix(e *Env, rule string) {
 		return false
 	}
 	const ts, tl = `strings.TrimLeft(s,"0")`, `strings.TrimLeft(l,"0")`
+	numericByLength := false
+	defer func() {
+		// digit counts of the remainders order the numbers only if the remainders are whole digit runs
+		if numericByLength && rule == "C06.numorder" {
+			ruleDigitRunStart(e, rule, cpr, sufCall)
+		}
+	}()
 	for _, lf := range leaves {
 		construct := lf.String()
 		if lf.Err != nil {
@@ -304,6 +323,7 @@ func ruleSuffix(e *Env, rule string) {
 				e.S.Bad(rule, site, construct, "not both all-digit: returns "+got+", expected the lexical comparison of the two remainders with the caller's sign convention", e.Pos(suf), "")
 			}
 		case hasLen && lenOrd != 0:
+			numericByLength = true
 			// result is cmp(longer operand, shorter operand): more digits in l ⇒ +1
 			want := "1"
 			if lenOrd > 0 {
@@ -324,6 +344,214 @@ func ruleSuffix(e *Env, rule string) {
 			e.S.Bad(rule, site, construct, "both remainders all-digit but no comparison of their digit counts decides the result ("+got+"): numeric identifiers compared lexically", e.Pos(suf), "1.0.0-2 vs 1.0.0-11")
 		}
 	}
+}
+
+// ruleDigitRunStart: the remainder function orders all-digit remainders by their digit count. That is the numeric
+// order of the identifiers only if no digit common to both precedes the remainders: the index J at which both
+// operands are cut satisfies J == 0 or s[J-1] is not a digit on every path to the call. Recognised: J is the variable
+// of a rewind loop entered from the scan index, stepping J-1, every exit of which is the failing edge of `J > 0` or
+// of one half of the digit test on s[J-1] ('0' <= c, c <= '9').
+func ruleDigitRunStart(e *Env, rule string, scan *ssa.Function, call *ssa.Call) {
+	site := flow.FnName(scan)
+	const construct = "digit run start"
+	const witness = "1.0.0-11 vs 1.0.0-101"
+	bad := func(msg string) { e.S.Bad(rule, site, construct, msg, e.posOf(call), witness) }
+	if call == nil || len(call.Call.Args) != 2 {
+		return
+	}
+	var cut ssa.Value
+	var subject ssa.Value
+	for _, a := range call.Call.Args {
+		sl, ok := a.(*ssa.Slice)
+		if !ok || sl.Low == nil || sl.High != nil {
+			e.S.Unk(rule, site, construct, "the remainders are not of the form x[J:]", e.posOf(call))
+			return
+		}
+		if cut != nil && cut != sl.Low {
+			e.S.Unk(rule, site, construct, "the two remainders are cut at different indices", e.posOf(call))
+			return
+		}
+		cut = sl.Low
+		if subject == nil {
+			subject = sl.X
+		}
+	}
+	subjects := map[ssa.Value]bool{}
+	for _, a := range call.Call.Args {
+		subjects[a.(*ssa.Slice).X] = true
+	}
+	ph, ok := cut.(*ssa.Phi)
+	var back *ssa.BinOp
+	if ok {
+		for _, ed := range ph.Edges {
+			if bo, isB := ed.(*ssa.BinOp); isB && bo.Op == token.SUB && bo.X == ssa.Value(ph) {
+				if k, isC := flow.ConstInt(bo.Y); isC && k == 1 {
+					back = bo
+				}
+			}
+		}
+	}
+	if back == nil {
+		bad("the remainders start at the first differing byte, which may lie inside a digit run: digits common to both numbers are dropped before the digit counts are compared, so 11 and 101 (remainders 1 and 01) compare equal")
+		return
+	}
+	head := ph.Block()
+	// the rewind loop: blocks dominated by the header from which the back-edge source is reachable
+	inLoop := map[*ssa.BasicBlock]bool{head: true}
+	var reach func(b *ssa.BasicBlock, seen map[*ssa.BasicBlock]bool) bool
+	reach = func(b *ssa.BasicBlock, seen map[*ssa.BasicBlock]bool) bool {
+		if b == back.Block() {
+			return true
+		}
+		if seen[b] || b == head {
+			return false
+		}
+		seen[b] = true
+		for _, s := range b.Succs {
+			if reach(s, seen) {
+				return true
+			}
+		}
+		return false
+	}
+	for _, b := range scan.Blocks {
+		if b != head && head.Dominates(b) && reach(b, map[*ssa.BasicBlock]bool{}) {
+			inLoop[b] = true
+		}
+	}
+	isPrev := func(v ssa.Value) bool { // J - 1
+		bo, ok := v.(*ssa.BinOp)
+		if !ok || bo.Op != token.SUB || bo.X != ssa.Value(ph) {
+			return false
+		}
+		k, isC := flow.ConstInt(bo.Y)
+		return isC && k == 1
+	}
+	prevByte := func(v ssa.Value) bool { // s[J-1] of one of the two operands
+		switch x := v.(type) {
+		case *ssa.Index:
+			return subjects[x.X] && isPrev(x.Index)
+		case *ssa.UnOp:
+			if ia, ok := x.X.(*ssa.IndexAddr); ok && x.Op == token.MUL {
+				return subjects[ia.X] && isPrev(ia.Index)
+			}
+		}
+		return false
+	}
+	// exitOK: leaving the loop on this edge implies J == 0 or s[J-1] is not a digit
+	exitOK := func(cond ssa.Value, onTrue bool) bool {
+		bo, ok := cond.(*ssa.BinOp)
+		if !ok {
+			return false
+		}
+		op, x, y := bo.Op, bo.X, bo.Y
+		if _, isC := flow.ConstInt(x); isC { // constant on the left: mirror
+			x, y = y, x
+			switch op {
+			case token.LSS:
+				op = token.GTR
+			case token.GTR:
+				op = token.LSS
+			case token.LEQ:
+				op = token.GEQ
+			case token.GEQ:
+				op = token.LEQ
+			}
+		}
+		k, isC := flow.ConstInt(y)
+		if !isC {
+			return false
+		}
+		if onTrue { // express the edge as the failing edge of the negated test
+			switch op {
+			case token.LSS:
+				op = token.GEQ
+			case token.GEQ:
+				op = token.LSS
+			case token.GTR:
+				op = token.LEQ
+			case token.LEQ:
+				op = token.GTR
+			case token.EQL:
+				op = token.NEQ
+			case token.NEQ:
+				op = token.EQL
+			}
+		}
+		// now: the edge is taken when `x op k` is false
+		switch {
+		case x == ssa.Value(ph): // J > 0, J >= 1, J != 0 fail ⇒ J <= 0
+			return op == token.GTR && k == 0 || op == token.GEQ && k == 1 || op == token.NEQ && k == 0
+		case prevByte(x): // '0' <= c fails ⇒ c < '0';  c <= '9' fails ⇒ c > '9'
+			return op == token.GEQ && k == '0' || op == token.GTR && k == '0'-1 || op == token.LEQ && k == '9' || op == token.LSS && k == '9'+1
+		}
+		return false
+	}
+	exits := 0
+	for b := range inLoop {
+		iff, ok := b.Instrs[len(b.Instrs)-1].(*ssa.If)
+		if !ok {
+			continue
+		}
+		for k, s := range b.Succs {
+			if inLoop[s] {
+				continue
+			}
+			exits++
+			if !exitOK(iff.Cond, k == 0) {
+				bad("the rewind loop in front of the remainder comparison can be left while the byte in front of the cut is still a digit (exit on " + iff.Cond.String() + "): digits common to both numbers are dropped before the digit counts are compared")
+				return
+			}
+		}
+	}
+	if exits == 0 {
+		e.S.Unk(rule, site, construct, "rewind loop without a recognisable exit", e.posOf(call))
+		return
+	}
+	// the loop is entered with the scan index (the first differing byte)
+	e.S.Ok(rule, site, construct, fmt.Sprintf("the remainders are cut at J with J == 0 or a non-digit in front of it (rewind loop with %d exits, each the failing edge of J > 0 or of a half of the digit test on s[J-1]): the compared digit counts are those of whole digit runs", exits), e.posOf(call))
+}
+
+// shorterArgIndex: in the scanning function, the call's argument that is a re-slice of the value whose length bounds
+// the scan loop (i < len(X)); -1 if that is not recognisable or not unique.
+func shorterArgIndex(scan *ssa.Function, call *ssa.Call) int {
+	if scan == nil || call == nil || len(call.Call.Args) != 2 {
+		return -1
+	}
+	var bound ssa.Value
+	for _, b := range scan.Blocks {
+		iff, ok := b.Instrs[len(b.Instrs)-1].(*ssa.If)
+		if !ok {
+			continue
+		}
+		cmp, ok := iff.Cond.(*ssa.BinOp)
+		if !ok || cmp.Op != token.LSS {
+			continue
+		}
+		if x, ok := flow.IsLenOf(cmp.Y); ok {
+			if bound != nil && bound != flow.StripConv(x) {
+				return -1
+			}
+			bound = flow.StripConv(x)
+		}
+	}
+	if bound == nil {
+		return -1
+	}
+	idx := -1
+	for i, a := range call.Call.Args {
+		sl, ok := a.(*ssa.Slice)
+		if !ok {
+			continue
+		}
+		if flow.StripConv(sl.X) == bound {
+			if idx >= 0 {
+				return -1
+			}
+			idx = i
+		}
+	}
+	return idx
 }
 
 // ---- C14.latest
@@ -349,7 +577,7 @@ func ruleLatest(e *Env, rule string) {
 			}
 			return pred.Const{V: constantInt(int64(c))}, nil
 		}}
-		ev := &pred.Evaluator{Prog: e.P.SSA, Oracle: noOracle{}, Summaries: sums}
+		ev := &pred.Evaluator{Prog: e.P.SSA, GlobalInit: e.globalTables(), Oracle: noOracle{}, Summaries: sums}
 		out, err := ev.Eval(fn, []pred.Val{v, w})
 		if err != nil {
 			e.S.Unk(rule, site, construct, err.Error(), e.Pos(fn))
@@ -388,7 +616,7 @@ func ruleC14Next(e *Env) {
 		for _, ovf := range []bool{false, true} {
 			construct := map[bool]string{false: "no carry", true: "carry"}[ovf]
 			o := &ordOracle{ord: map[string]int{carry + "|0": map[bool]int{false: 0, true: 1}[ovf]}}
-			ev := &pred.Evaluator{Prog: e.P.SSA, Oracle: o}
+			ev := &pred.Evaluator{Prog: e.P.SSA, GlobalInit: e.globalTables(), Oracle: o}
 			out, err := ev.Eval(fn, []pred.Val{symStruct(verT, "v")})
 			if err != nil {
 				e.S.Unk(rule, site, construct, err.Error(), e.Pos(fn))
